@@ -261,6 +261,11 @@ func (r *runner) discharge(o *Obligation) {
 		to = 4 * time.Second
 	}
 	res := runSolvers(file, to, r.seed, false)
+	if res.status == "unknown" && !o.Cover && !r.thorough && (res.all["z3"] == "timeout" || res.all["z3-new"] == "timeout" || res.all["z3-new"] == "") {
+		// a z3 back end ran out of time rather than giving up: most likely machine load; one retry with a
+		// longer limit keeps a loaded machine from turning a 5 s proof into an alarm
+		res = runSolvers(file, 4*to, r.seed, false)
+	}
 	o.Backend, o.Secs = res.backend, res.secs
 	o.file = file
 	if res.malformed != "" && !strings.Contains(res.malformed, "model is not available") {
